@@ -74,3 +74,16 @@ def spanning_values(m, extra=True):
         out.append(tuple([3] * m))
         out.append(tuple((i * i) % 5 - 1 for i in range(m)))
     return out
+
+
+TINY = 2.0 ** -30
+
+
+def ximage(x, img):
+    """abscissa images that defeat tolerance-based shortcuts: 'tiny' = exact scaling by 2^-30 (spacings far below 1e-8),
+    'jitter' = a relative perturbation of 1e-6 (a clearly non-uniform grid that np.allclose calls uniform)"""
+    if img == "tiny":
+        return [float(v) * TINY for v in x]
+    if img == "jitter":
+        return [float(v) * (1.0 + 1e-6 * ((i % 3) - 1)) for i, v in enumerate(x)]
+    return [float(v) for v in x]
